@@ -384,7 +384,7 @@ Section Shape.
       rewrite frames_push in H1.
       eapply ext_eq; [exact (ext_trans _ _ _ _ _ _ _ H1 H2)|rewrite app_nil_l; reflexivity|reflexivity].
     - (* numeric for *)
-      intros n vl e1 e2 e3 b l _ _ _ _ _ _ IH1 IH2 IH3 IHb flv slv st HA Hne. cbn [tr_stat sk_stat fst snd]. cbn in HA.
+      intros n vl e1 e2 e3 b l _ _ _ _ _ IH1 IH2 IH3 IHb flv slv st HA Hne. cbn [tr_stat sk_stat fst snd]. cbn in HA.
       apply ext_push_pop; [exact Hne|].
       assert (Hpne : t_frames (push l st) <> []) by (rewrite frames_push; discriminate).
       assert (HA1 : incl (asg_exp e1) A) by (intros x Hx; apply HA; apply in_or_app; left; exact Hx).
@@ -394,9 +394,9 @@ Section Shape.
       assert (HAb : incl (asg_block b) A)
         by (intros x Hx; apply HA; apply in_or_app; right; apply in_or_app; right; apply in_or_app; right; exact Hx).
       pose proof (IH1 flv _ HA1 Hpne) as H1.
-      pose proof (IH3 flv _ HA3 (ext_nonempty _ _ _ _ H1)) as H3.
+      pose proof (IH2 flv _ HA2 (ext_nonempty _ _ _ _ H1)) as H3.
       pose proof (ext_trans _ _ _ _ _ _ _ H1 H3) as H13.
-      pose proof (IH2 flv _ HA2 (ext_nonempty _ _ _ _ H13)) as H2.
+      pose proof (IH3 flv _ HA3 (ext_nonempty _ _ _ _ H13)) as H2.
       pose proof (ext_trans _ _ _ _ _ _ _ H13 H2) as H132.
       pose proof (ext_add_var (mkV n vl RNone false) _ (ext_nonempty _ _ _ _ H132)) as H4.
       pose proof (ext_trans _ _ _ _ _ _ _ H132 H4) as H1324.
